@@ -52,14 +52,18 @@
 (* Abstractions (deliberate, named): the tracer is a sequencer (Send never *)
 (* blocks for good: subscribers drain); the monitor's subscription buffer  *)
 (* holds only the traces the monitor reacts to; activity harness + generic *)
-(* task + task-trace relay are one node; cancellation is not modelled here *)
-(* (Lifecycle.tla); inclusive gateways, events and sub-processes are not   *)
-(* modelled at this level.                                                 *)
+(* task + task-trace relay are one node; cancellation is one environment   *)
+(* step (ECancel) after which every goroutine has its ctx.Done exit edge   *)
+(* (CancelLeavesNothing; the environment stops answering); inclusive       *)
+(* gateways, events and sub-processes are not modelled at this level.      *)
 (***************************************************************************)
 EXTENDS TokenGame
 
 CONSTANTS MaxFlows,   \* bound on flow goroutines ever created in a run
-          NWaiters    \* number of WaitUntilComplete callers
+          NWaiters,   \* number of WaitUntilComplete callers
+          MayCancel,  \* the instance's context may be cancelled (at any point after StartAll returned)
+          CtxSends    \* TRUE: sends into a node's inbox give up when the context is done (the code
+                      \* as it is now); FALSE: bare sends (the pinned code, finding F28)
 
 VARIABLE e            \* the engine state (one record, functional style)
 
@@ -98,6 +102,10 @@ EInit(i) ==
    inv    |-> 0,                                    \* InvalidStateError reports (never expected)
    vars   |-> Vars0(i),
    wg     |-> 0,
+   ctx    |-> FALSE,                                \* the instance's context is cancelled
+   up     |-> [n \in NodeIdsOf(i) |-> FALSE],       \* the node's goroutine has been started (once.Do)
+   dead   |-> [n \in NodeIdsOf(i) |-> FALSE],       \* ... and has returned (ctx.Done)
+   ncanc  |-> 0,                                    \* flows that ended by cancellation
    mon    |-> [pc |-> "none", n |-> 0, q |-> <<>>, sub |-> FALSE],
    lock   |-> "free",
    ceased |-> FALSE,
@@ -124,7 +132,7 @@ FlowBegin(st, f) ==
 FlowAsk(st, f) ==
   LET n == st.fl[f].node IN
   EMv(ETau("ask"),
-      [st EXCEPT !.inbox[n] = Append(@, Msg("next", f, <<>>)), !.fl[f].pc = "wait"])
+      [st EXCEPT !.inbox[n] = Append(@, Msg("next", f, <<>>)), !.fl[f].pc = "wait", !.up[n] = TRUE])
 
 \* a trace whose source is a top-level start event reaches the monitor's subscription
 MonSees(st, node) ==
@@ -176,11 +184,22 @@ FlowReport(st, f) ==
 
 HasRoom(st, n) == Len(st.inbox[n]) < Cap(st.p, n)
 
+\* `case <-ctx.Done():` of the flow loop: CancellationFlowTrace, return (wait group, sender)
+FlowCancel(st, f) ==
+  EMv(ELab("cancelflow", f, st.fl[f].node), [Finish(st, f) EXCEPT !.ncanc = @ + 1])
+\* a probe report that is given up (the gateway's loop has gone): back to the loop top
+FlowSkipReport(st, f) ==
+  EMv(ETau("skipreport"), [st EXCEPT !.fl[f].pc = "ask", !.fl[f].res = <<>>])
+
 FlowMoves(st) ==
   UNION { CASE st.fl[f].pc = "new"    -> {FlowBegin(st, f)}
-            [] st.fl[f].pc = "ask"    -> IF HasRoom(st, st.fl[f].node) THEN {FlowAsk(st, f)} ELSE {}
-            [] st.fl[f].pc = "wait"   -> IF st.resp[f].k # "none" THEN {FlowTake(st, f)} ELSE {}
-            [] st.fl[f].pc = "report" -> IF HasRoom(st, st.fl[f].node) THEN {FlowReport(st, f)} ELSE {}
+            \* NextAction: select { inbox <- request | ctx.Done }, then the loop's own select
+            [] st.fl[f].pc = "ask"    -> (IF HasRoom(st, st.fl[f].node) THEN {FlowAsk(st, f)} ELSE {})
+                                         \cup (IF st.ctx /\ CtxSends THEN {FlowCancel(st, f)} ELSE {})
+            [] st.fl[f].pc = "wait"   -> (IF st.resp[f].k # "none" THEN {FlowTake(st, f)} ELSE {})
+                                         \cup (IF st.ctx THEN {FlowCancel(st, f)} ELSE {})
+            [] st.fl[f].pc = "report" -> (IF HasRoom(st, st.fl[f].node) THEN {FlowReport(st, f)} ELSE {})
+                                         \cup (IF st.ctx /\ CtxSends THEN {FlowSkipReport(st, f)} ELSE {})
             [] OTHER -> {}
           : f \in 1..st.nf }
 
@@ -253,10 +272,18 @@ NodeEmit(st, nid) == EMv(ELab("ifp", 0, nid), [st EXCEPT !.busy[nid] = FALSE])
 Resend(st, x) ==
   EMv(ETau("resend"), [st EXCEPT !.inbox[x[1]] = Append(@, x[2]), !.resend = @ \ {x}])
 
+\* `case <-ctx.Done():` of a node's run loop: the goroutine returns, its inbox is not drained any more
+NodeExit(st, nid) == EMv(ELab("cancelnode", 0, nid), [st EXCEPT !.dead[nid] = TRUE])
+ResendDrop(st, x) == EMv(ETau("resenddrop"), [st EXCEPT !.resend = @ \ {x}])
+
 NodeMoves(st) ==
-  {NodeStep(st, n) : n \in {n \in NodeIdsOf(st.p) : ~st.busy[n] /\ st.inbox[n] # <<>>}}
+  {NodeStep(st, n) : n \in {n \in NodeIdsOf(st.p) : ~st.busy[n] /\ ~st.dead[n] /\ st.inbox[n] # <<>>}}
   \cup {NodeEmit(st, n) : n \in {n \in NodeIdsOf(st.p) : st.busy[n]}}
   \cup {Resend(st, x) : x \in {x \in st.resend : HasRoom(st, x[1])}}
+  \cup (IF st.ctx
+        THEN {NodeExit(st, n) : n \in {n \in NodeIdsOf(st.p) : st.up[n] /\ ~st.busy[n] /\ ~st.dead[n]}}
+             \cup (IF CtxSends THEN {ResendDrop(st, x) : x \in st.resend} ELSE {})
+        ELSE {})
 
 -----------------------------------------------------------------------------
 (* process.go: StartAll / StartWith, the cease-flow monitor, WaitUntilComplete *)
@@ -270,17 +297,22 @@ Trigger(st) ==
             THEN [st EXCEPT !.mon = [pc |-> "p1", n |-> 0, q |-> <<>>, sub |-> TRUE], !.lock = "mon"]
             ELSE st
   IN EMv(ELab("trigger", 0, ev),
-         [s1 EXCEPT !.inbox[ev] = Append(@, Msg("start", 0, <<>>)), !.todo = Tail(@)])
+         [s1 EXCEPT !.inbox[ev] = Append(@, Msg("start", 0, <<>>)), !.todo = Tail(@), !.up[ev] = TRUE])
 
+\* the monitor gives up when the context is done (unsubscribe, unlock, no cease trace)
+MonQuit(st) == EMv(ETau("monquit"), [st EXCEPT !.mon.pc = "done", !.mon.sub = FALSE, !.mon.q = <<>>, !.lock = "free"])
 MonMoves(st) ==
   CASE st.mon.pc = "p1" ->
-         IF st.mon.n = NStarts(st.p) THEN {EMv(ETau("monunsub"), [st EXCEPT !.mon.pc = "p2", !.mon.sub = FALSE, !.mon.q = <<>>])}
-         ELSE IF st.mon.q # <<>> THEN {EMv(ETau("montake"), [st EXCEPT !.mon.q = Tail(@), !.mon.n = @ + 1])}
-         ELSE {}
+         (IF st.mon.n = NStarts(st.p) THEN {EMv(ETau("monunsub"), [st EXCEPT !.mon.pc = "p2", !.mon.sub = FALSE, !.mon.q = <<>>])}
+          ELSE IF st.mon.q # <<>> THEN {EMv(ETau("montake"), [st EXCEPT !.mon.q = Tail(@), !.mon.n = @ + 1])}
+          ELSE {})
+         \cup (IF st.ctx /\ st.mon.n # NStarts(st.p) THEN {MonQuit(st)} ELSE {})
     [] st.mon.pc = "p2" ->
-         IF st.wg = 0
-         THEN {EMv(ELab("cease", 0, ""), [st EXCEPT !.mon.pc = "done", !.ceased = TRUE, !.lock = "free"])}
-         ELSE {}
+         \* select { <-waitIsOver: cease | <-ctx.Done() }: when both are ready either is taken
+         (IF st.wg = 0
+          THEN {EMv(ELab("cease", 0, ""), [st EXCEPT !.mon.pc = "done", !.ceased = TRUE, !.lock = "free"])}
+          ELSE {})
+         \cup (IF st.ctx THEN {MonQuit(st)} ELSE {})
     [] OTHER -> {}
 
 \* WaitUntilComplete: helper goroutine takes the completion lock and signals
@@ -306,8 +338,15 @@ EngInit == \E i \in {i \in 1..NProg : Supported(i)} :
 
 EStep == \E m \in EInternal(e) : e' = m.e /\ UNCHANGED s
 
+\* the context is cancelled (after StartAll has returned); the environment stops answering
+ECancel ==
+  /\ MayCancel /\ ~e.ctx /\ e.todo = <<>>
+  /\ e' = [e EXCEPT !.ctx = TRUE]
+  /\ UNCHANGED s
+
 EAnswer ==
-  \E r \in e.reqs : \E pl \in Payloads(e.p, Node(e.p, r.task)) :
+  /\ ~e.ctx
+  /\ \E r \in e.reqs : \E pl \in Payloads(e.p, Node(e.p, r.task)) :
     /\ e' = [e EXCEPT !.reqs = @ \ {r},
                       !.resp[r.f] = FlowAct(Node(e.p, r.task).out, FALSE, pl)]
     /\ \E t \in ReqToks(s) : t.at = r.task /\ t.occ = r.occ /\ s' = CloseQuiet(AnswerOK(s, t, pl))
@@ -328,7 +367,7 @@ WaitAgain ==
         e' = [e EXCEPT !.wt[w] = [pc |-> "waiting", sig |-> FALSE, h |-> "locking"]]
   /\ UNCHANGED s
 
-Next == EStep \/ EAnswer \/ WaitCall \/ WaitTimeout \/ WaitAgain
+Next == EStep \/ EAnswer \/ ECancel \/ WaitCall \/ WaitTimeout \/ WaitAgain
 Spec == EngInit /\ [][Next]_<<e, s>>
 
 -----------------------------------------------------------------------------
@@ -354,7 +393,10 @@ SameObservables ==
   /\ \A n \in DOMAIN e.errs  : e.errs[n]  = s.errs[n]
 
 \* the cease trace: only when every start event fired and no token remains, after everything else
-CeaseOnlyWhenComplete == e.ceased => (s.ceased /\ SameObservables /\ e.wg = 0 /\ e.reqs = {})
+\* (not claimed once the context is cancelled: the monitor's last select may see the wait group
+\* drained by cancelled flows and the context at the same time and take the cease branch -- a
+\* model-only observation, no real execution showed it)
+CeaseOnlyWhenComplete == (e.ceased /\ ~e.ctx) => (s.ceased /\ SameObservables /\ e.wg = 0 /\ e.reqs = {})
 
 \* WaitUntilComplete returns true only after the cease trace
 WaitTrueOnlyAfterCease == \A w \in 1..NWaiters : (e.wt[w].pc = "true" \/ e.wt[w].sig) => e.ceased
@@ -362,10 +404,23 @@ WaitTrueOnlyAfterCease == \A w \in 1..NWaiters : (e.wt[w].pc = "true" \/ e.wt[w]
 \* nothing can move and nothing is pending: the engine shows exactly what the game shows
 Quiescent == EInternal(e) = {} /\ e.reqs = {}
 QuiescentAgrees ==
-  Quiescent => /\ SameObservables
+  (Quiescent /\ ~e.ctx) =>
+               /\ SameObservables
                /\ e.ceased <=> s.ceased
                \* every waiter still waiting has been signalled if the instance completed
                /\ e.ceased => \A w \in 1..NWaiters : e.wt[w].pc = "waiting" => e.wt[w].sig
+
+\* C07 at level M: once the context is cancelled and nothing can move any more, every goroutine
+\* has returned -- no flow is left blocked on an inbox or a response, no re-send goroutine, the
+\* monitor has gone and released the completion lock.  With CtxSends = FALSE TLC finds the flow
+\* blocked for ever on the full inbox of a gateway whose loop has returned (finding F28).
+CancelLeavesNothing ==
+  (e.ctx /\ EInternal(e) = {}) =>
+     /\ \A f \in 1..e.nf : e.fl[f].pc = "done"
+     /\ e.wg = 0
+     /\ e.resend = {}
+     /\ e.mon.pc \in {"none", "done"} /\ e.lock = "free"
+     /\ \A n \in NodeIdsOf(e.p) : e.up[n] => e.dead[n]
 
 \* between two messages a parallel gateway never holds a complete set of parked tokens
 ParCounter == \A n \in DOMAIN e.par :
